@@ -18,6 +18,8 @@ def run(ctx, model_ok, deep=False):
     F.run_suites(ctx, model_ok, deep, [
         ("reuse", S.reuse_suite, S.falsify_reuse,
          "all sequences of length 1-2 and 500 of length 3 (quick) / all to length 4 (thorough) over {valid, badsig, expired, nodot, onedot, badhdr, noalg, badpay, unsigned, NULL, empty, error_clear}, plus random sequences of length 5-60; reference = same token on a fresh checker", False),
+        ("key-lifecycle", S.key_lifecycle_suite, S.falsify_accept,
+         "per key type and provider: one keyring slot loaded, used, freed and re-loaded 6 (quick) / 12 (thorough) times with two keys of the same type and size in turn; after every re-load the retired key's token must fail and the current key's must verify", False),
         ("builder-reuse", S.builder_reuse_suite, S.falsify_builder_reuse,
          "all sequences to length 3 (quick) / 4 (thorough) over {ok, callback fails, weak key, callback selects inadmissible key/alg, unsigned, error_clear} + random longer ones; each generate compared with a fresh identically configured builder", False),
     ])
